@@ -102,10 +102,11 @@ def split_sms(text: str, encoding: str = '') -> List[bytes]:
     total_len: int
     text_bytes: bytes
     if encoding == 'gsm0338':
-        total_len = len(text)
+        # Length is counted in septets, extended characters take two (escape code + char)
+        text_bytes, total_len = GSM7BitCodec.get_codec_info().encode(text)
+        total_len = len(text_bytes)
         if total_len <= MAX_SM_SIZE:
             # Fits in one SMS
-            text_bytes, total_len = GSM7BitCodec.get_codec_info().encode(text)
             return [encode_user_data(text_bytes, total_len)]
     else:
         text_bytes, total_len = UCS2Codec.get_codec_info().encode(text)
@@ -116,21 +117,20 @@ def split_sms(text: str, encoding: str = '') -> List[bytes]:
 
     pdu_msgs: List[bytes]
     if encoding == 'gsm0338':
-        text_msgs: List[str] = []
+        pdu_msgs = []
         start: int = 0
         end: int = MAX_SM_SIZE
         while start < total_len:
             if end - start == MAX_SM_SIZE:
-                end_char: str = text[end - 1]
-                if end_char == chr(ESCAPE):
+                end_byte: int = text_bytes[end - 1]
+                if end_byte == ESCAPE:
                     # GSM 03.38 escape code, must not unpair it from extended char
                     end -= 1
-            text_msgs.append(text[start:end])
+            pdu_msgs.append(text_bytes[start:end])
             start = end
             end += MAX_SM_SIZE
             if end > total_len:
                 end = total_len
-        pdu_msgs = [GSM7BitCodec.get_codec_info().encode(msg)[0] for msg in text_msgs]
     else:
         pdu_msgs = []
         start: int = 0
@@ -169,10 +169,11 @@ def split_sms_udh(text: str, encoding: str = '', csms_ref: Optional[int] = None)
     total_len: int
     text_bytes: bytes
     if encoding == 'gsm0338':
-        total_len = len(text)
+        # Length is counted in septets, extended characters take two (escape code + char)
+        text_bytes, total_len = GSM7BitCodec.get_codec_info().encode(text)
+        total_len = len(text_bytes)
         if total_len <= MAX_SEPTET_SIZE:
             # Fits in one SMS
-            text_bytes, total_len = GSM7BitCodec.get_codec_info().encode(text)
             return [encode_user_data(text_bytes, total_len)]
         len_without_udh: int = MAX_SEPTET_SIZE - udh_len - 2
     else:
@@ -197,25 +198,23 @@ def split_sms_udh(text: str, encoding: str = '', csms_ref: Optional[int] = None)
         udh.append(csms_ref)
 
     if encoding == 'gsm0338':
-        text_msgs: List[str] = []
+        byte_msgs: List[bytes] = []
         start: int = 0
         end: int = len_without_udh
         while start < total_len:
             if end - start == len_without_udh:
-                end_char: str = text[end - 1]
-                if end_char == chr(ESCAPE):
+                end_byte: int = text_bytes[end - 1]  # type: ignore ; must be bound
+                if end_byte == ESCAPE:
                     # GSM 03.38 escape code, must not unpair it from extended char
                     end -= 1
-            text_msgs.append(text[start:end])
+            byte_msgs.append(text_bytes[start:end])  # type: ignore ; must be bound
             start = end
             end += len_without_udh
             if end > total_len:
                 end = total_len
-        udh.append(len(text_msgs))
+        udh.append(len(byte_msgs))
         udh.append(0)
-        for index, msg in enumerate(text_msgs):
-            msg_bytes: bytes
-            msg_bytes, _msg_len = GSM7BitCodec.get_codec_info().encode(msg)
+        for index, msg_bytes in enumerate(byte_msgs):
             udh[udh_len] = index + 1
             pdu_msgs.append(bytes(udh) + msg_bytes)
     else:
